@@ -793,6 +793,15 @@ class PolyhedralTermList(TermList):  # noqa: WPS338
         logging.debug("Verifying refinement")
         logging.debug("LH term: %s", self)
         logging.debug("RH term: %s", other)
+        # terms without variables are trivially true or make their side unsatisfiable; they have no matrix representation
+        try:
+            self = self._without_variable_free_terms()  # noqa: WPS440
+        except ValueError:
+            return True
+        try:
+            other = other._without_variable_free_terms()
+        except ValueError:
+            return self.is_empty()
         if other.lacks_constraints():
             return True
         if self.lacks_constraints():
@@ -810,8 +819,12 @@ class PolyhedralTermList(TermList):  # noqa: WPS338
         Returns:
             True if constraints cannot be satisfied.
         """
+        try:
+            constraints = self._without_variable_free_terms()
+        except ValueError:
+            return True
         _, self_mat, self_cons, _, _ = PolyhedralTermList.termlist_to_polytope(  # noqa: WPS236
-            self, PolyhedralTermList([])
+            constraints, PolyhedralTermList([])
         )
         logging.debug("Polytope is \n%s", self_mat)
         return PolyhedralTermList.is_polytope_empty(self_mat, self_cons)
@@ -884,6 +897,7 @@ class PolyhedralTermList(TermList):  # noqa: WPS338
             ValueError: Constraints are likely unfeasible.
         """
         obj = PolyhedralTermList([PolyhedralTerm(variables=objective, constant=0)])
+        self = self._without_variable_free_terms()  # noqa: WPS440 raises ValueError if one of them is unsatisfiable
         if self.lacks_constraints() and obj.vars:
             # nothing bounds the objective
             return None
